@@ -585,7 +585,7 @@ def _ready_engine(fl, rng, kind):
                           terms=[fl.Constant("s", 2.0), fl.Constant("t", 7.0)] if kind not in ("tsukamoto", "inverse") else
                           ([fl.Ramp("s", 0.0, 10.0), fl.Ramp("t", 10.0, 0.0)] if kind == "tsukamoto" else [fl.Triangle("s", 0.0, 2.0, 6.0), fl.Gaussian("t", 7.0, 1.5)]))
     ants = ["A is low", "A is low and B is high", "A is low or B is high", "A is low and B is low or C is high", "(A is low or B is low) and C is high", "A is very low",
-            "A is low and (B is high or C is low)", "A is any"]
+            "A is low and (B is high or C is low)", "A is any", "A is low or B is high or C is low", "A is low and B is high and C is low"]
     cons = {"mamdani": ["M is m", "M is n", "M is m and M is n"], "sugeno": ["S is s", "S is t"], "tsukamoto": ["S is s", "S is t"], "inverse": ["S is s", "S is t"],
             "hybrid": ["M is m and S is s", "S is t and M is n", "M is m", "S is s"]}[kind]
     outs = {"mamdani": [M], "sugeno": [S], "tsukamoto": [S], "inverse": [S], "hybrid": [M, S]}[kind]      # inverse: a weighted defuzzifier over non-monotonic shapes (weights x membership)
@@ -1048,6 +1048,11 @@ def replay_history(fl, FA, vals=None, seed=0, budget=60, **kw):
                     vi = rng.randrange(len(cur.input_variables)); get = lambda e_: e_.input_variables[vi]
                 old = get(cur).enabled
                 get(cur).enabled = not old
+                if kind == "in" and rng.random() < 0.5:
+                    # inputs given through the engine-level matrix while one input variable is disabled: every variable still receives its own column
+                    xs = [rng.choice(rows) for _ in cur.input_variables]
+                    cur.input_values = np.array([xs])
+                    trace.append("input_values-matrix-while-toggled")
                 if rng.random() < 0.4:
                     cur.restart(); xs = [float("nan")] * len(cur.input_variables); trace.append("restart-while-toggled")
                 r = check(f"{kind} flag toggled", flags=lambda e_: setattr(get(e_), "enabled", not old))
